@@ -336,7 +336,7 @@ def make_file_pair(rng, fmt, workdir, n=None, pos_cls=None):
         open(refp, "w").write(rm.write_kitti_text(ref["p"], ref["R"]))
     else:
         refp = os.path.join(workdir, "ref.csv")
-        open(refp, "w").write(rm.write_euroc_text(np.round(ref["t"] * 1e9), ref["p"], gen.quats_of(ref["R"])))
+        open(refp, "w").write(rm.write_euroc_text(np.round(ref["t"] * 1e9), ref["p"], gen.quats_of(ref["R"]), header=bool(rng.random() < .7), extra_cols=int([9, 0, 3][rng.integers(3)]), eol=["\n", "\n", "\r\n"][rng.integers(3)]))
     if fmt == "kitti":
         open(estp, "w").write(rm.write_kitti_text(est["p"], est["R"]))
     else:
@@ -404,16 +404,18 @@ def draw_common_options(rng, fp, force=()):
          "t_start": None, "t_end": None, "project_to_plane": None}
     argv = []
     u = rng.random()
+    if "scale_only" in force:
+        u = 0.5 + 0.5 * u  # no Umeyama rotation: scale correction alone (optionally with origin alignment)
     if u < .3:
         o["align"] = True
         argv.append("--align" if rng.random() < .5 else "-a")
-    elif u < .45:
+    elif u < .45 or ("scale_only" in force and u < .7):
         o["align_origin"] = True
         argv.append("--align_origin")
-    if rng.random() < .35:
+    if rng.random() < .35 or "scale_only" in force:
         o["correct_scale"] = True
         argv.append("--correct_scale" if rng.random() < .5 else "-s")
-    if (o["align"] or o["correct_scale"]) and rng.random() < .4:
+    if (o["align"] or o["correct_scale"]) and (rng.random() < .4 or "n_to_align" in force):
         o["n_to_align"] = int(rng.integers(3, max(4, fp["n_est"] + 2)))
         argv += ["--n_to_align", str(o["n_to_align"])]
     if rng.random() < .25:
